@@ -310,7 +310,7 @@ static bool bind_tree(const struct mstate* m, int node, cbor_item_t* it) {
  * afterwards, which is legal because either the container now keeps the item alive or the refused call left it exactly
  * as it was. The net effect equals the plain call, so the model is unchanged; what differs is the count the library
  * sees, in particular 0 on a refusal path. */
-static uint64_t g_detaches;
+static uint64_t g_detaches, g_late_attaches;
 static bool g_lend;
 static uint64_t g_lent_calls, g_lent_refused;
 #define LEND(x) do { if (g_lend) cbor_move(x); } while (0)
@@ -420,6 +420,19 @@ static int r_apply(const struct mstate* pre, const struct mstate* post, struct o
       /* a complete tree (no tag waiting for its content) that has a size serializes into exactly that many bytes */
       if (sz && m_complete(pre, a) && (w != sz || w2 != sz))
         vh_violation("serialize-disagrees-with-size", "cbor_serialized_size says %zu but cbor_serialize into a buffer of that size returned %zu and cbor_serialize_alloc %zu (tree %s)", sz, w, w2, kind_names[pre->n[a].kind]);
+      /* every smaller buffer is refused and nothing is written beyond it (trees edited after they were assembled included) */
+      if (sz && sz <= 160 && m_complete(pre, a)) {
+        uint8_t* big = malloc(sz + 64);
+        for (size_t nn = 0; nn < sz; nn++) {
+          memset(big, 0x5e, sz + 64);
+          size_t r = LIB(cbor_serialize(rslot[o.a], big, nn)); LIBEND();
+          if (r != 0) { vh_violation("wrong-return", "tree of serialized size %zu, buffer of %zu bytes: cbor_serialize returned %zu", sz, nn, r); break; }
+          bool clean = true;
+          for (size_t q = nn; q < sz + 64; q++) if (big[q] != 0x5e) { clean = false; break; }
+          if (!clean) { vh_violation("write-beyond-buffer", "tree of serialized size %zu (%s): cbor_serialize with buffer_size=%zu wrote beyond the buffer", sz, kind_names[pre->n[a].kind], nn); break; }
+        }
+        free(big);
+      }
       return 1;
     }
     case OP_DESCRIBE:
@@ -441,6 +454,18 @@ static int r_apply(const struct mstate* pre, const struct mstate* post, struct o
     }
     case OP_REHANDLE: {
       cbor_item_t* it = rslot[o.a];
+      /* a string that was created (and perhaps already attached to a container or a chunked string) without a buffer
+       * gets its buffer now: structure first, contents later */
+      if ((cbor_isa_bytestring(it) ? cbor_bytestring_handle(it) : cbor_string_handle(it)) == NULL) {
+        size_t nl = 3 + (o.b & 7) * 5;
+        unsigned char* blk = _cbor_malloc(nl);
+        if (blk) {
+          for (size_t q = 0; q < nl; q++) blk[q] = (unsigned char)('k' + q % 7);
+          if (cbor_isa_bytestring(it)) { LIB(cbor_bytestring_set_handle(it, blk, nl)); LIBEND(); } else { LIB(cbor_string_set_handle(it, blk, nl)); LIBEND(); }
+          g_late_attaches++;
+        }
+        return 1;
+      }
       if (cbor_isa_bytestring(it)) {
         size_t len = cbor_bytestring_length(it);
         unsigned char* h = cbor_bytestring_handle(it);
@@ -1225,6 +1250,7 @@ static void hist_run(void) {
     vh_count_dyn("ops_executed", g_ops_executed);
     vh_count_dyn("ops_expected_to_be_refused", g_refused_ops);
     vh_count_dyn("string_blocks_detached_and_released_by_the_client", g_detaches);
+    vh_count_dyn("buffers_attached_late_to_handle_less_strings", g_late_attaches);
     vh_count_dyn("calls_with_arguments_lent_through_cbor_move", g_lent_calls);
     vh_count_dyn("calls_with_lent_arguments_that_were_refused", g_lent_refused);
     vh_count_dyn("ops_in_which_an_allocation_refusal_fired", g_refusals_hit);
@@ -1278,6 +1304,7 @@ static void hist_run(void) {
     vh_count_dyn("ops_executed", g_ops_executed);
     vh_count_dyn("ops_expected_to_be_refused", g_refused_ops);
     vh_count_dyn("string_blocks_detached_and_released_by_the_client", g_detaches);
+    vh_count_dyn("buffers_attached_late_to_handle_less_strings", g_late_attaches);
     vh_count_dyn("calls_with_arguments_lent_through_cbor_move", g_lent_calls);
     vh_count_dyn("calls_with_lent_arguments_that_were_refused", g_lent_refused);
     vh_count_dyn("ops_in_which_an_allocation_refusal_fired", g_refusals_hit);
